@@ -130,7 +130,7 @@ func emitConc(p *Pkgs, w *strings.Builder) {
 	}
 	targets := []target{
 		{"concDnsLookup", p.Fclient, "DNSCache", "lookup"},
-		{"concDnsDialContext", p.Fclient, "DNSCache", "DialContext"},
+		{"concDnsDialContext", p.Fclient, "DNSCache", "dialContext"},
 		{"concGetTransport", p.Fclient, "destinationTripper", "getTransport"},
 		{"concReaper", p.Fclient, "destinationTripper", "reaper"},
 		{"concFetchKeys", p.Root, "DirectKeyFetcher", "FetchKeys"},
